@@ -44,8 +44,16 @@ func seededMain(args []string) int {
 		if *allProps {
 			a = append(a, "-all")
 		}
-		cmd := exec.Command(os.Args[0], a...)
-		out, _ := cmd.CombinedOutput()
+		var out []byte
+		for attempt := 0; attempt < 3; attempt++ {
+			cmd := exec.Command(os.Args[0], a...)
+			out, _ = cmd.CombinedOutput()
+			so := string(out)
+			if strings.Contains(so, "CAUGHT ") || strings.Contains(so, "MISSED ") || strings.Contains(so, "OTHER  ") || strings.Contains(so, "BROKEN ") {
+				break
+			}
+			// no verdict line: the child died (e.g. killed under memory pressure); run it again
+		}
 		fmt.Print(string(out))
 		if strings.Contains(string(out), "\nCAUGHT ") || strings.HasPrefix(string(out), "CAUGHT ") {
 			caught++
